@@ -4,6 +4,7 @@ import (
 	"bytes"
 	"context"
 	"fmt"
+	"strings"
 
 	"verifharness/ev"
 	"verifharness/memtr"
@@ -18,6 +19,7 @@ type c04One struct {
 	Kind    string // catalogue item, "flip", "trunc"
 	Arg     int    // bit index / truncation length
 	Forever bool   // forgery on every attempt (else the authentic reply follows on attempt 2)
+	Code    int    // completion code carried by the forged message (catalogue items only)
 	Seed    int64
 }
 
@@ -33,7 +35,13 @@ var c04Catalogue = []string{
 	"wrong-k1", "wrong-sid-signed", "wrong-sid-unsigned", "sessionless-wrapper", "plaintext-unsigned-session-sid", "unsigned-encrypted",
 	"pad-wrong-value", "pad-wrong-count", "pad-count-over-15", "pad-count-16", "integrity-pad-not-ff", "different-body-unsigned-same-seq",
 	"pad-sequential-17", "pad-sequential-24", "pad-sequential-40", "pad-sequential-200", "pad-sequential-255", "pad-last-byte-wrong", "pad-one-byte-wrong",
+	"sid-bmc-signed", "sid-bmc-unsigned", "sid-zero-signed", "sid-plus1-signed", "sid-minus1-signed", "sid-swapped-signed", "sid-highbit-signed", "sid-inverted-signed", "sid-bmc-plus1-signed",
 }
+
+// c04CodeKinds are the forgeries repeated with every completion code: a
+// refusal is as much a result as a success, so an unsigned or misaddressed
+// datagram must not deliver one either.
+var c04CodeKinds = []string{"flag-cleared-trailer-removed", "plaintext-unsigned-session-sid", "unsigned-encrypted", "wrong-sid-signed", "sid-bmc-signed", "wrong-k1", "sessionless-wrapper"}
 
 func init() {
 	register(&Check{
@@ -51,6 +59,7 @@ func init() {
 				for _, cmd := range []string{"guid", "devid", "chassis"} {
 					cs = append(cs, ev.MkCase("batch", c04Batch{Suite: su, Cmd: cmd, What: "catalogue", Seed: seed}))
 					cs = append(cs, ev.MkCase("batch", c04Batch{Suite: su, Cmd: cmd, What: "truncs", Seed: seed}))
+					cs = append(cs, ev.MkCase("batch", c04Batch{Suite: su, Cmd: cmd, What: "codes", Seed: seed}))
 					step := 3
 					if tier == "thorough" || su == int(seed%9) || su == int((seed+4)%9) {
 						step = 1
@@ -79,6 +88,12 @@ func c04Exec(run *ev.Run, c ev.Case) {
 			for _, k := range c04Catalogue {
 				for _, forever := range []bool{true, false} {
 					c04Run(run, c04One{Suite: b.Suite, Cmd: b.Cmd, Kind: k, Forever: forever, Seed: b.Seed})
+				}
+			}
+		case b.What == "codes":
+			for _, k := range c04CodeKinds {
+				for code := 1; code < 256; code++ {
+					c04Run(run, c04One{Suite: b.Suite, Cmd: b.Cmd, Kind: k, Forever: code%2 == 0, Code: code, Seed: b.Seed})
 				}
 			}
 		case b.What == "truncs":
@@ -156,7 +171,7 @@ func c04Run(run *ev.Run, o c04One) {
 		return // the item does not apply to this reply (e.g. bit index beyond the datagram)
 	}
 	run.Eval(1)
-	desc := fmt.Sprintf("suite %v cmd %s forgery %s/%d forever=%v", su, o.Cmd, o.Kind, o.Arg, o.Forever)
+	desc := fmt.Sprintf("suite %v cmd %s forgery %s/%d code %#x forever=%v", su, o.Cmd, o.Kind, o.Arg, o.Code, o.Forever)
 	if pv != nil {
 		run.Violation("C04:panic:"+panicSite(stk), fmt.Sprintf("%s: panic %v\n%s", desc, pv, trimStack(stk)), cs, nil)
 		return
@@ -218,7 +233,7 @@ func c04Forge(o c04One, b *refbmc.BMC, auth []byte, forgedBody []byte, r interfa
 	if se == nil || last == nil {
 		return nil, false
 	}
-	msg := refbmc.RespMsg(last, 0, forgedBody)
+	msg := refbmc.RespMsg(last, byte(o.Code), forgedBody)
 	_, il := refbmc.IntegFor(se.Suite.Integ)
 	randBytes := func(n int) []byte { x := make([]byte, n); r.Read(x); return x }
 	other := se.ConsoleSID ^ 0x5a5a0000
@@ -254,6 +269,33 @@ func c04Forge(o c04One, b *refbmc.BMC, auth []byte, forgedBody []byte, r interfa
 		return se.Wrap(msg, refbmc.WrapOpts{Key1: randBytes(len(se.K1))}), true
 	case "wrong-sid-signed":
 		return se.Wrap(msg, refbmc.WrapOpts{SID: &other}), true
+	case "sid-bmc-signed", "sid-bmc-unsigned", "sid-zero-signed", "sid-plus1-signed", "sid-minus1-signed", "sid-swapped-signed", "sid-highbit-signed", "sid-inverted-signed", "sid-bmc-plus1-signed":
+		var sid uint32
+		switch strings.TrimSuffix(strings.TrimSuffix(o.Kind, "-signed"), "-unsigned") {
+		case "sid-bmc":
+			sid = se.BMCSID
+		case "sid-zero":
+			sid = 0
+		case "sid-plus1":
+			sid = se.ConsoleSID + 1
+		case "sid-minus1":
+			sid = se.ConsoleSID - 1
+		case "sid-swapped":
+			sid = se.ConsoleSID<<16 | se.ConsoleSID>>16
+		case "sid-highbit":
+			sid = se.ConsoleSID ^ 0x80000000
+		case "sid-inverted":
+			sid = ^se.ConsoleSID
+		case "sid-bmc-plus1":
+			sid = se.BMCSID + 1
+		}
+		if sid == se.ConsoleSID {
+			return nil, false
+		}
+		if strings.HasSuffix(o.Kind, "-unsigned") {
+			return se.Wrap(msg, refbmc.WrapOpts{SID: &sid, NoAuthFlag: true, DropTrailer: true}), true
+		}
+		return se.Wrap(msg, refbmc.WrapOpts{SID: &sid}), true
 	case "wrong-sid-unsigned":
 		return se.Wrap(msg, refbmc.WrapOpts{SID: &other, NoAuthFlag: true, DropTrailer: true, NoEncrypt: true}), true
 	case "sessionless-wrapper":
